@@ -3,6 +3,8 @@ package main
 import (
 	"bytes"
 	"fmt"
+	"github.com/ethereum/go-ethereum/common"
+	ethcrypto "github.com/ethereum/go-ethereum/crypto"
 	"math/big"
 	"math/rand"
 	"os"
@@ -93,13 +95,15 @@ func mutateBytes(rng *rand.Rand, b []byte) []byte {
 var weirdIDs = []string{"", ":", "::", ":::", "a:b", "a:b:c:d", "1356:chainA", "1356::s1", ":chainA:s1", "1356:chainA:s1:", "-", "--", "a-b", "1356:chainA:s1-1356:chainB:s1", "1356:chainA:s1-x-y-z", "9999:x:y", "1356:1356:svc", "\x00:\x00:\x00"}
 
 type t08 struct {
-	w     *vlog.W
-	world *harness.World
-	rng   *rand.Rand
-	surf  []harness.Method
-	pool  []string
-	idx   map[string]uint64 // next request index per valid pair
-	kinds map[string]int
+	w          *vlog.W
+	world      *harness.World
+	rng        *rand.Rand
+	surf       []harness.Method
+	pool       []string
+	idx        map[string]uint64 // next request index per valid pair
+	kinds      map[string]int
+	ethFunded  bool
+	ethTargets []*types.Address
 }
 
 func (t *t08) sender() *harness.Key {
@@ -213,7 +217,7 @@ func (t *t08) genTx() (pb.Transaction, string) {
 			tx = harness.Finish(tx, k, proof)
 		}
 		return tx, "ibtp:malformed"
-	case x < 86: // byte-level mutation of well-formed payloads
+	case x < 82: // byte-level mutation of well-formed payloads
 		var base *pb.BxhTransaction
 		switch r.Intn(4) {
 		case 0:
@@ -233,6 +237,23 @@ func (t *t08) genTx() (pb.Transaction, string) {
 			base.To = types.NewAddress(mutateBytes(r, base.To.Bytes())[:min(20, len(base.To.Bytes()))])
 		}
 		return harness.Finish(base, k, nil), "mutated-payload"
+	case x >= 82 && x < 86: // Ethereum-format: well-formed ones around contracts without code
+		if !t.ethFunded {
+			t.ethFunded = true
+			return w.Transfer(harness.User(0), harness.EthAddr(harness.EthKey("eth-0")), "1000000000000"), "eth:funding"
+		}
+		price := big.NewInt(int64(1000 + r.Intn(1000000)))
+		if len(t.ethTargets) == 0 || r.Intn(3) == 0 {
+			// empty init code: the created account has a code hash and no code bytes
+			etx := w.Eth("eth-0", 0, 200000, price, big.NewInt(0), nil, nil)
+			t.ethTargets = append(t.ethTargets, types.NewAddress(ethcrypto.CreateAddress(common.BytesToAddress(harness.EthAddr(harness.EthKey("eth-0")).Bytes()), etx.GetNonce()).Bytes()))
+			return etx, "eth:deploy-empty-code"
+		}
+		to := t.ethTargets[r.Intn(len(t.ethTargets))]
+		if r.Intn(2) == 0 {
+			return harness.XVMInvokeTx(k, w.Nonce(k.Addr), w.Stamp(), to, "run", pb.String("x")), "eth:xvm-invoke-of-codeless-contract"
+		}
+		return w.Eth("eth-0", 0, 100000, price, big.NewInt(int64(r.Intn(2))), to, []byte{1, 2, 3, 4}), "eth:call-codeless-contract"
 	case x < 93: // structure-level oddities
 		switch r.Intn(5) {
 		case 0: // unknown tx data type / vm type
